@@ -7,6 +7,7 @@ from fractions import Fraction
 from .. import astq
 from .. import sym as S
 from .. import realfun as RF
+from ..report import MISSING
 from ..model import AnalysisError
 from ..symeval import SymEval
 from . import cli_common as cc
@@ -206,8 +207,8 @@ def octave_validation(ctx, R="R-C19/OctaveScaling/validation"):
     c = prog.cls("scales.OctaveScaling")
     init = prog.own_method(c, "__init__")
     body = [s for s in init.node.body if not (isinstance(s, ast.Expr) and isinstance(s.value, ast.Constant))]
-    first = body[0] if body else None
-    ok = isinstance(first, ast.If) and astq.text(first.test).replace(" ", "") in ("low_hz<=0", "0>=low_hz", "notlow_hz>0") and \
+    first = body[0] if body else MISSING(None)
+    ok = isinstance(first, ast.If) and astq.in_texts(first.test, ("low_hz<=0", "0>=low_hz", "notlow_hz>0",)) and \
         len(first.body) == 1 and isinstance(first.body[0], ast.Raise) and astq.raise_type(prog, init, first.body[0]) == "ValueError"
     ctx.check(ok, R, init, first if first is not None else init.node, "OctaveScaling rejects low_hz <= 0 with ValueError before storing it",
               "OctaveScaling.__init__ does not start with `if low_hz <= 0: raise ValueError`")
